@@ -28,7 +28,7 @@ template <typename F> static Exc run(F&& f) {
 int main(int argc, char** argv) {
   Args A(argc, argv);
   size_t len = A.u("g_len"), off = A.u("g_off"), offset = A.u("in_offset"), size = A.u("in_size");
-  bool adv = A.u("in_advance") & 1;
+  bool adv = A.u("in_advance") != 0;
   const string& m = A.mode;
   printf("%s: len=%zu cursor=%zu offset=%zu size=%zu advance=%d\n", m.c_str(), len, off, offset, size, adv);
   if (len > (1u << 24)) { printf("buffer too large to replay natively\n"); return 2; }
@@ -47,6 +47,43 @@ int main(int argc, char** argv) {
   else if (m == "skip") { Exc e = run([&] { r.skip(size); });
     RCHECK((e == NONE) == inr(off, size, len), "skip(%zu) at cursor %zu on %zu bytes: %s, cursor now %zu", size, off, len, e == NONE ? "returned" : "threw", r.where());
     RCHECK(e == NONE ? r.where() == off + size : r.where() == len, "cursor after skip is %zu", r.where()); }
+  else if (m == "pread_str" || m == "read_str" || m == "preadx_str" || m == "readx_str") {
+    bool pos = m[0] == 'p', x = m.find('x') != string::npos; size_t at = pos ? offset : off; string s;
+    Exc e = run([&] { s = x ? (pos ? r.preadx(at, size) : r.readx(size, adv)) : (pos ? r.pread(at, size) : r.read(size, adv)); });
+    if (x) RCHECK((e == NONE) == inr(at, size, len) && (e == NONE || e == OOR), "%s(%zu,%zu) on %zu bytes: %s", m.c_str(), at, size, len, e == NONE ? "returned" : e == OOR ? "threw out_of_range" : "threw something other than out_of_range (the request reached std::string)");
+    else RCHECK(e == NONE, "%s threw", m.c_str());
+    if (e == NONE) { size_t want = x ? size : clampn(at, size, len);
+      RCHECK(s.size() == want, "returned %zu bytes, expected %zu", s.size(), want);
+      RCHECK(memcmp(s.data(), d + at, want) == 0, "bytes differ");
+      if (!pos) RCHECK(r.where() == off + (adv ? want : 0) && (off > len || r.where() <= len), "cursor %zu", r.where()); }
+    else if (!pos) RCHECK(r.where() == off, "cursor moved on failure");
+  }
+  else if (m == "pget_cstr" || m == "get_cstr") {
+    bool pos = m[0] == 'p'; size_t at = pos ? offset : off; string s;
+    // place a terminator somewhere (or nowhere) depending on the size argument so that both exits are exercised
+    for (size_t i = 0; i < len; i++) if (d[i] == 0) d[i] = 1;
+    if (A.has("in_size") && size < len) d[size] = 0;
+    Exc e = run([&] { s = pos ? r.pget_cstr(at) : r.get_cstr(adv); });
+    size_t z = at; bool found = false; if (at < len) { for (z = at; z < len; z++) if (d[z] == 0) { found = true; break; } }
+    RCHECK((e == NONE) == found && (e == NONE || e == OOR), "%s at %zu on %zu bytes (terminator %s): %s", m.c_str(), at, len, found ? "present" : "absent", e == NONE ? "returned" : "threw");
+    if (e == NONE) { RCHECK(s.size() == z - at && memcmp(s.data(), d + at, z - at) == 0, "string content");
+      if (!pos) RCHECK(r.where() == off + (adv ? s.size() + 1 : 0) && r.where() <= len, "cursor %zu", r.where()); }
+  }
+  else if (m == "get_line") {
+    for (size_t i = 0; i < len; i++) if (d[i] == '\n') d[i] = 'x';
+    if (A.has("in_size") && size < len) d[size] = '\n';
+    string s; Exc e = run([&] { s = r.get_line(adv); });
+    RCHECK((e == NONE) == (off < len), "get_line at %zu on %zu bytes: %s", off, len, e == NONE ? "returned" : "threw");
+    if (e == NONE) { RCHECK(off > len || r.where() <= len, "cursor %zu is beyond the end of the %zu-byte buffer (remaining() = %zu)", r.where(), len, r.remaining());
+      RCHECK(memcmp(s.data(), d + off, s.size()) == 0, "line content"); }
+  }
+  else if (m == "bw_pwrite" || m == "bw_write") {
+    if (size > (1u << 20)) return 2; bool pos = m == "bw_pwrite"; size_t at = pos ? offset : off;
+    uint8_t* buf = guarded(len); string src(size, 'Z'); BufferWriter w(buf, len);
+    if (!pos && off) { if (off > len) return 2; string pre(off, 'p'); w.write(pre); }
+    Exc e = NONE; try { if (pos) w.pwrite(at, src.data(), size); else w.write(src.data(), size); } catch (const runtime_error&) { e = OTHER; }
+    RCHECK((e == NONE) == inr(at, size, len), "%s(%zu, %zu bytes) into %zu-byte buffer: %s", m.c_str(), at, size, len, e == NONE ? "stored" : "threw");
+  }
   else if (m.rfind("pget_", 0) == 0 || m.rfind("get_", 0) == 0) {
     bool pos = m[0] == 'p'; string k = m.substr(pos ? 5 : 4);   // u24b, s48l, ...
     bool sg = k[0] == 's', big = k.back() == 'b'; int n = (k.substr(1, 2) == "24") ? 3 : 6;
